@@ -69,6 +69,10 @@ type SliceV struct {
 type BytesV struct {
 	S   *smt.Term // String-sorted content
 	Nil *smt.Term // Bool: is the slice nil
+	// Src/Ver: the slice aliases the memory of a bytes.Buffer (Buffer.Bytes()); it is only valid until the next
+	// modification of that buffer (version Ver)
+	Src Ptr
+	Ver int
 }
 
 type MapV struct{ Obj *Obj }
